@@ -121,7 +121,7 @@ def r2(ctx, fs):
         for ct, pol in conds:
             if ct == ('==', ('mcall', 'std::vector<smt::lit>::size', 'lits'), ('num', 1)):
                 key = 'unit' if pol else 'clause'
-        got[key] = [canon(s, env) for s in p.stmts if not s.get('as')]
+        got[key] = [canon(s, env) for s in p.live(env)]
     unit = got.get('unit') or []
     ok_unit = any(_has(t, ('mcall', SC + 'enqueue', 'this', ('[]', 'lits', ('num', 0)), 'nullptr')) for t in unit)
     ctx.instance(rid, [f.id, 'unit'], {'unit_no_good_enqueued': ok_unit})
@@ -300,7 +300,7 @@ def r4(ctx, fs):
     got = {}
     for p in enum_paths(loop[0]['slots']['body']):
         conds = tuple((canon(c[1], env, subst=False), c[2]) for c in p.conds if c[0] == 'if')
-        got[conds] = ([show(canon(s, env, subst=False)) for s in p.stmts], p.end)
+        got[conds] = ([show(canon(s, env, subst=False)) for s in p.live(env)], p.end)
     # the loop body as a decision function of four atomic tests on the current literal (any nesting / order / negation of the tests is the same function):
     # T: value == True, C: literal == !p (complement of the previous one), F: value == False, D: literal == p (duplicate)
     def atom(t, pol):
@@ -387,7 +387,7 @@ def r4(ctx, fs):
             2: [('mcall', 'std::vector<smt::constr *>::push_back', SC + 'constrs', ('call', 'smt::clause::new_clause', 'this', 'lits')), ('ReturnStmt', 'true')]}
     for n in (0, 1, 2):
         ps = taken.get(n, [])
-        gotc = [[canon(st, env, subst=False) for st in p.stmts if st.get('k') not in ('BreakStmt',)] for p in ps]
+        gotc = [[canon(st, env, subst=False) for st in p.live(env) if st.get('k') not in ('BreakStmt',)] for p in ps]
         ctx.instance(rid, [f.id, 'size%s' % n], {'literals_left': n if n < 2 else '2 or more', 'does': [[show(x) for x in g] for g in gotc]})
         shrink = lambda g: [x for x in g if not (isinstance(x, tuple) and x[0] == 'mcall' and x[1] == 'std::vector<smt::lit>::resize' and x[2] == 'lits')]
         if len(ps) != 1 or shrink(gotc[0]) != want[n] or len(shrink(gotc[0])) != len(gotc[0]) - 1:
@@ -478,7 +478,7 @@ def r6(ctx, fs):
     got = {}
     for p in enum_paths(loops[0]['slots']['body']):
         conds = tuple((canon(c[1], env, subst=False), c[2]) for c in p.conds if c[0] == 'if')
-        got[conds] = sorted(show(canon(s, env, subst=False)) for s in p.stmts if not s.get('as'))
+        got[conds] = sorted(show(canon(s, env, subst=False)) for s in p.live(env))
     first = ('.', ('mcall', 'std::set<unsigned long>::insert', 'seen', ('call', 'smt::variable', q)), 'second')
     cur = ('==', ) + tuple(sorted((LQ, ('mcall', SC + 'decision_level', 'this')), key=repr))
     low = ('<', ('num', 0), LQ)
